@@ -1,17 +1,18 @@
+import TplModel.Props.RenderProps
 import TplModel.Proofs.ScanConcat
 import TplModel.Proofs.TreeProofs
 import TplModel.Props.C05refine
 /-! # C01 — markup without directives is reproduced unchanged
 
-OBLIGATIONS: HS.scan_concat, TB.tree_preorder, TB.build_total, RN.execute_refines
+OBLIGATIONS: HS.scan_concat, TB.tree_preorder, TB.build_total, RN.execute_refines, RN.Props.render_plain
 
 * `HS.scan_concat`: for every configuration and every input, the values of the scanned tokens concatenate back to
   the source (first consequence named by the property).
 * `TB.tree_preorder`: the tree builder neither drops, duplicates nor reorders a token (pre-order flattening of the
   built tree is the token list), for every classifier of void / closing / self-closing tags.
 * `RN.execute_refines`: the re-entrant renderer equals the structural reference renderer, on which
-  `render_plain` (directive-free trees print their tokens, no evaluation at all) is stated — see Props/RenderProps
-  once delivered; until then the identity clause is carried by the correspondence check (S2/S3 of ./check C01). -/
+  `RN.Props.render_plain` is stated: a directive-free tree (`Plain`) renders to exactly `printNode root` — the
+  concatenation of its tokens' values — with status ok and an EMPTY evaluation log (nothing is evaluated). -/
 namespace C01
 
 /-- non-vacuity: a concrete document with an unbalanced close tag and a raw-text element scans to tokens whose values
